@@ -133,7 +133,7 @@ PROPS["C12"] = {
     "jobs": [
         {"func": "verifH_C12_tlv", "pkg": "tlv", "params": {"N": list(range(0, 7)), "entry": [0, 1, 2, 3, 4, 5]}, "params_thorough": {"N": list(range(0, 9))}, "unwind": 64, "expect_reach": ["returned"]},
         {"func": "verifH_C12_doc_raw", "pkg": "document", "params": {"N": [0, 1, 2, 3, 4, 5], "ctor": [1, 7, 11, 12, 13, 15, 16, 20]}, "params_thorough": {"N": list(range(0, 8))}, "unwind": 64, "expect_reach": ["returned"]},
-        {"func": "verifH_C12_doc_tpl", "pkg": "document", "params": {"M": [0, 1, 2], "ctor": [1, 7, 11, 12, 16, 20]}, "unwind": 64, "expect_reach": ["returned"]},
+        {"func": "verifH_C12_doc_tpl", "pkg": "document", "params": {"M": [0, 1], "C": [1, 3, 8], "ctor": [1, 7, 11, 12, 16, 20]}, "params_thorough": {"M": [0, 1, 2]}, "unwind": 64, "expect_reach": ["returned"]},
     ],
 }
 
